@@ -191,6 +191,7 @@ func (fc *FnCtx) execInstr(fr *Frame, st *State, reach string, ins ssa.Instructi
 		fc.spawn(fr, st, reach, t)
 	case *ssa.Send:
 		fc.assumption("A-CHAN: channel operations are nondeterministic (no FIFO, no blocking semantics)")
+		fc.blockingOp(fr, st, reach, "channel send")
 		fc.atSend(fr, st, reach, fc.value(fr, st, t.Chan), fc.value(fr, st, t.X))
 		fc.chanSend(fr, st, reach, fc.value(fr, st, t.Chan), fc.value(fr, st, t.X), "true")
 	case *ssa.Select:
@@ -388,6 +389,10 @@ func (fc *FnCtx) unop(fr *Frame, st *State, reach string, t *ssa.UnOp) Val {
 		return intVal(t.Type(), wrapTerm(t.Type(), sx("-", x.S)))
 	case token.ARROW:
 		fc.assumption("A-CHAN: channel operations are nondeterministic (no FIFO, no blocking semantics)")
+		fc.blockingOp(fr, st, reach, "channel receive "+fc.exprAt(fr, t.Pos(), func(n ast.Node) bool { _, ok := n.(*ast.UnaryExpr); return ok }))
+		if x.Orig != "ctx.Done" {
+			fc.unboundedWait(fr, reach, "channel receive "+fc.exprAt(fr, t.Pos(), func(n ast.Node) bool { _, ok := n.(*ast.UnaryExpr); return ok }))
+		}
 		et := t.X.Type().Underlying().(*types.Chan).Elem()
 		v := fc.freshVal(st, et, "recv")
 		fc.chanRecv(st, reach, x, v, "true")
@@ -841,6 +846,18 @@ func (fc *FnCtx) selectOp(fr *Frame, st *State, t *ssa.Select) Val {
 		lo = "(- 1)"
 	}
 	fc.sc.assume(tAnd(sx("<=", lo, idx), sx("<", idx, num(int64(len(t.States))))))
+	if t.Blocking {
+		fc.blockingOp(fr, st, fc.curReach, "blocking select")
+		hasDone := false
+		for _, sst := range t.States {
+			if sst.Send == nil && fc.value(fr, st, sst.Chan).Orig == "ctx.Done" {
+				hasDone = true
+			}
+		}
+		if !hasDone {
+			fc.unboundedWait(fr, fc.curReach, "blocking select without a ctx.Done() case")
+		}
+	}
 	for k, sst := range t.States {
 		if sst.Send != nil {
 			fc.atSend(fr, st, fc.curReach, fc.value(fr, st, sst.Chan), fc.value(fr, st, sst.Send))
